@@ -7,7 +7,7 @@ namespace ASMC
 variable {X : Type} [Fintype X] [DecidableEq X] {m : ℕ}
 variable {sp : Spec (m := m) X} {u : ℚ}
 
-theorem propC_one (hv : Valid sp) {t : ℕ} (x' : X) {S : Sys X m} (hS : GoodW sp t S) :
+theorem propC_one {T : ℕ} (hv : ValidTo sp T) {t : ℕ} (ht : t < T) (x' : X) {S : Sys X m} (hS : GoodW sp t S) :
     propC sp t x' S (fun _ => 1) = 1 := by
   unfold propC
   simp only [mul_one]
@@ -17,7 +17,7 @@ theorem propC_one (hv : Valid sp) {t : ℕ} (x' : X) {S : Sys X m} (hS : GoodW s
   rw [this]
   apply Finset.prod_eq_one
   intro i _
-  exact hv.qsum t _ (hS i.succ).2
+  exact hv.qsum t _ ht (hS i.succ).2
 
 theorem resC_one {t : ℕ} {S : Sys X m} (hS : GoodW sp t S) :
     resC u S (fun _ => 1) = 1 := by
@@ -31,7 +31,7 @@ theorem resC_one {t : ℕ} {S : Sys X m} (hS : GoodW sp t S) :
   intro i _
   exact wbar_sum hS
 
-theorem stepC_one (hv : Valid sp) (hu : 0 < u) {t : ℕ} (x' : X) {S : Sys X m} (hS : GoodW sp t S) :
+theorem stepC_one {T : ℕ} (hv : ValidTo sp T) (hu : 0 < u) {t : ℕ} (ht : t < T) (x' : X) {S : Sys X m} (hS : GoodW sp t S) :
     stepC sp u t x' S (fun _ => 1) = 1 := by
   unfold stepC
   split
@@ -40,26 +40,26 @@ theorem stepC_one (hv : Valid sp) (hu : 0 < u) {t : ℕ} (x' : X) {S : Sys X m} 
     unfold resC
     have h1 : ∀ a : Fin m → Fin (m+1),
         propC sp t x' (fun j => reset u (S ((Fin.cons 0 a : Fin (m+1) → Fin (m+1)) j))) (fun _ => 1) = 1 :=
-      fun a => propC_one hv x' (reset_good hu hS _)
+      fun a => propC_one hv ht x' (reset_good hu hS _)
     simp only [h1]
     have := resC_one (u := u) hS
     unfold resC at this
     simpa using this
-  · exact propC_one hv x' hS
+  · exact propC_one hv ht x' hS
 
-theorem C_one (hv : Valid sp) (hu : 0 < u) : ∀ (t : ℕ) (x : X), 0 < sp.g t x →
+theorem C_one {T : ℕ} (hv : ValidTo sp T) (hu : 0 < u) : ∀ (t : ℕ) (x : X), t ≤ T → 0 < sp.g t x →
     C sp u t x (fun _ => 1) = 1 := by
   intro t
   induction t with
-  | zero => intro x _; rfl
+  | zero => intro x _ _; rfl
   | succ t ih =>
-    intro x hx
+    intro x ht hx
     simp only [C]
-    have hgs := hv.gsupp t x hx
-    rw [C_congr hv hu t _ hgs.1 (f' := fun _ => 1)]
-    · exact ih _ hgs.1
+    have hgs := hv.gsupp t x ht hx
+    rw [C_congr hv hu t _ (Nat.le_of_succ_le ht) hgs.1 (f' := fun _ => 1)]
+    · exact ih _ (Nat.le_of_succ_le ht) hgs.1
     · intro S hS
-      exact stepC_one hv hu x hS.2
+      exact stepC_one hv hu ht x hS.2
 
 variable (sp) (u)
 
@@ -90,13 +90,13 @@ theorem M_lin (t : ℕ) : Lin (M sp u t) := by
     apply Finset.sum_congr rfl; intro x _
     rw [(C_lin t x).smul]; ring
 
-theorem M_congr (hv : Valid sp) (hu : 0 < u) (t : ℕ) {f f' : Sys X m → ℚ}
+theorem M_congr {T : ℕ} (hv : ValidTo sp T) (hu : 0 < u) (t : ℕ) (ht : t ≤ T) {f f' : Sys X m → ℚ}
     (h : ∀ S, GoodW sp t S → f S = f' S) : M sp u t f = M sp u t f' := by
   unfold M
   apply Finset.sum_congr rfl
   intro x _
   by_cases hx : 0 < sp.g t x
-  · rw [C_congr hv hu t x hx (fun S hS => h S hS.2)]
+  · rw [C_congr hv hu t x ht hx (fun S hS => h S hS.2)]
   · have : sp.g t x = 0 := le_antisymm (not_lt.mp hx) (hv.gnn t x)
     rw [this]; simp
 
@@ -123,20 +123,20 @@ theorem stepM_eq (t : ℕ) (x : X) (S : Sys X m) (hS : (S 0).1 = x) (f : Sys X m
   · unfold margP
     rw [hS]
 
-theorem coef_zero_of_not_parent (hv : Valid sp) (t : ℕ) (x x' : X) (h : sp.parent x' ≠ x) :
+theorem coef_zero_of_not_parent {T : ℕ} (hv : ValidTo sp T) (t : ℕ) (ht : t < T) (x x' : X) (h : sp.parent x' ≠ x) :
     coef sp t x x' = 0 := by
   unfold coef
   have : sp.q t x x' = 0 := by
     by_contra hne
     have hpos : 0 < sp.q t x x' := lt_of_le_of_ne (hv.qnn t x x') (Ne.symm hne)
-    exact h (hv.qparent t x x' hpos)
+    exact h (hv.qparent t x x' ht hpos)
   rw [this]; simp
 
-theorem g_coef (hv : Valid sp) (t : ℕ) (x' : X) :
+theorem g_coef {T : ℕ} (hv : ValidTo sp T) (t : ℕ) (ht : t < T) (x' : X) :
     sp.g t (sp.parent x') * coef sp t (sp.parent x') x' = sp.g (t+1) x' := by
   unfold coef incr
   by_cases hx' : 0 < sp.g (t+1) x'
-  · obtain ⟨hg, hq⟩ := hv.gsupp t x' hx'
+  · obtain ⟨hg, hq⟩ := hv.gsupp t x' ht hx'
     have hg' := ne_of_gt hg
     have hq' := ne_of_gt hq
     field_simp
@@ -144,7 +144,7 @@ theorem g_coef (hv : Valid sp) (t : ℕ) (x' : X) :
     rw [this]; simp
 
 /-- disintegration: the marginal measure satisfies a recursion that no longer mentions the retained path -/
-theorem M_succ (hv : Valid sp) (hu : 0 < u) (t : ℕ) (f : Sys X m → ℚ) :
+theorem M_succ {T : ℕ} (hv : ValidTo sp T) (hu : 0 < u) (t : ℕ) (ht : t < T) (f : Sys X m → ℚ) :
     M sp u (t+1) f = M sp u t (fun S => stepM sp u t S f) := by
   -- right-hand side
   have hR : M sp u t (fun S => stepM sp u t S f)
@@ -155,7 +155,7 @@ theorem M_succ (hv : Valid sp) (hu : 0 < u) (t : ℕ) (f : Sys X m → ℚ) :
     by_cases hx : 0 < sp.g t x
     · have : C sp u t x (fun S => stepM sp u t S f)
           = C sp u t x (fun S => ∑ x' : X, coef sp t x x' * stepC sp u t x' S f) :=
-        C_congr hv hu t x hx (fun S hS => stepM_eq t x S hS.1 f)
+        C_congr hv hu t x (Nat.le_of_lt ht) hx (fun S hS => stepM_eq t x S hS.1 f)
       rw [this, (C_lin t x).sum, Finset.mul_sum]
       apply Finset.sum_congr rfl; intro x' _
       rw [(C_lin t x).smul]
@@ -167,9 +167,9 @@ theorem M_succ (hv : Valid sp) (hu : 0 < u) (t : ℕ) (f : Sys X m → ℚ) :
   intro x' _
   simp only [C]
   rw [Finset.sum_eq_single (sp.parent x')]
-  · rw [← mul_assoc, g_coef hv]
+  · rw [← mul_assoc, g_coef hv t ht]
   · intro x _ hne
-    rw [coef_zero_of_not_parent hv t x x' (Ne.symm hne)]; simp
+    rw [coef_zero_of_not_parent hv t ht x x' (Ne.symm hne)]; simp
   · intro h; exact absurd (mem_univ _) h
 
 #print axioms M_succ
